@@ -395,7 +395,9 @@ def confirm_by_replay(run, family, module, tr, cfg=None, signature_fn=None, text
         confirmed_group = None
         for j, (case, evs) in enumerate(members):
             confirmed = confirmed_group
-            if j < 2 and budget > 0:
+            # every group is replayed at least once (its first member, whatever the budget says); the second member only
+            # while the budget lasts
+            if j == 0 or (j < 2 and budget > 0):
                 budget -= 1
                 rp = os.path.join(run.work, "replay_%s_%s.json" % (family, case))
                 with open(rp, "w") as fh:
